@@ -65,15 +65,15 @@ theorem blockPre_eq {σ σ' : Order} (h : σ.Valid) (h' : σ'.Valid) (h0 : Agree
     unfold keysOf; exact h0 p _
   rw [this]
 
-theorem analyzeForest_eq {σ σ' : Order} (h : σ.Valid) (h' : σ'.Valid) (h0 : Agree0 σ σ') (U : List Name) :
-    ∀ (f : Forest) (path : List Nat) (i : Nat) (bound free glob childFree : NSet),
-      analyzeForest U σ f path i bound free glob childFree = analyzeForest U σ' f path i bound free glob childFree := by
+theorem analyzeForest_eq {σ σ' : Order} (h : σ.Valid) (h' : σ'.Valid) (h0 : Agree0 σ σ') (U : List Name) (cp : Bool) :
+    ∀ (f : Forest) (path : List Nat) (i : Nat) (ps : Sets) (childFree : NSet),
+      analyzeForestG U σ cp f path i ps childFree = analyzeForestG U σ' cp f path i ps childFree := by
   intro f
   induction f with
-  | nil => intro _ _ _ _ _ _; rfl
+  | nil => intro _ _ _ _; rfl
   | node st kids sibs ihk ihs =>
-    intro path i bound free glob childFree
-    simp only [analyzeForest]
+    intro path i ps childFree
+    simp only [analyzeForestG]
     simp only [setCopy_perm h h' U (path ++ [i]) (path ++ [i]) 11 11,
       setCopy_perm h h' U (path ++ [i]) (path ++ [i]) 12 12,
       setCopy_perm h h' U (path ++ [i]) (path ++ [i]) 13 13,
@@ -85,7 +85,7 @@ theorem analyzeTop_eq {σ σ' : Order} (h : σ.Valid) (h' : σ'.Valid) (h0 : Agr
   cases f with
   | nil => rfl
   | node st kids sibs =>
-    simp only [analyzeTop, blockPre_eq h h' h0, analyzeForest_eq h h' h0, blockPost_perm h h' U [] []]
+    simp only [analyzeTop, analyzeTopG, blockPre_eq h h' h0, analyzeForest_eq h h' h0, blockPost_perm h h' U [] []]
 
 theorem newSymTable_eq {σ σ' : Order} (h : σ.Valid) (h' : σ'.Valid) (h0 : Agree0 σ σ') (b : Body) :
     newSymTable σ b = newSymTable σ' b := by
